@@ -108,3 +108,67 @@ def gen_budget(g):
     ff, _ = find_def("main", "format_files")
     rng = [n for n in ast.walk(ff) if isinstance(n, ast.For) and ast.unparse(n.iter) == "range(1, max_passes + 1)"]
     g.oblige("table", "format_files-makes-at-most-max_passes-passes", [], z3.BoolVal(len(rng) == 1), ff.lineno)
+
+
+# ----------------------------------------------------------------------------- fix.wrapper / chain.func_chain: the same cycle handling
+from .shapes import RECORDS, SCHED_ENTRY            # noqa: E402
+from pyvc.values import fresh_val                   # noqa: E402
+
+
+def _sched(eng, e, env, pc):
+    """_schedule_rewrites(source, ...): some schedule, a deterministic function of the text (the rule is a deterministic generator)"""
+    from pyvc.values import VSeq
+    src = env["source"]
+    s = fresh_val("schedule", ("seq", SCHED_ENTRY))
+    eng.assumptions.add("the schedule is a deterministic function of the text (C05 / C06); the pass P(text) = _apply_rewrites(text, schedule(text)) is an uninterpreted function")
+    return s
+
+
+_sched.lazy_args = True
+
+
+def _apply(eng, e, env, pc):
+    """_apply_rewrites(source, scheduled_rewrites) where the schedule was computed from the same text: the pass function P(source)"""
+    from pyvc.values import VStr, STR
+    src = eng.ev(e.args[0], env, pc)
+    return VStr(eng.uf("one_pass", [STR], STR)(src.t))
+
+
+_apply.lazy_args = True
+
+PGH = {"s0": "lambda: old(source)", "p1": "lambda: one_pass(old(source))", "p2": "lambda: one_pass(one_pass(old(source)))"}
+
+
+def g_one_pass(eng, args, kw, env, pc, node):
+    from pyvc.values import VStr, STR
+    return VStr(eng.uf("one_pass", [STR], STR)(args[0].t))
+
+
+fix_cycles = Unit(
+    "processing", "fix.fix_decorator.wrapper", name="processing.fix.fix_decorator.wrapper/cycles",
+    params={"source": "str", "max_iter": "int"}, returns="str",
+    requires=[("budget-at-least-two", "max_iter >= 2")],
+    ensures=[("a-fixed-point-of-the-pass-is-returned-unchanged", "implies(one_pass(s0()) == s0(), result == s0())"),
+             ("a-two-cycle-of-the-pass-returns-the-text-it-started-from", "implies(one_pass(one_pass(s0())) == s0(), result == s0())")],
+    loops={0: {"inv": ["s0() in history",
+                       "implies(_i == 0, source == s0())", "implies(_i == 1, source == one_pass(s0()))",
+                       "implies(one_pass(s0()) == s0() or one_pass(one_pass(s0())) == s0(), _i <= 1)",
+                       "history == {s0()}"]}},
+    calls={"_schedule_rewrites": _sched, "_apply_rewrites": _apply}, ghost=dict(PGH, one_pass=g_one_pass), records=RECORDS, props=("C09",),
+)
+
+chain_cycles = Unit(
+    "processing", "chain.func_chain", name="processing.chain.func_chain/cycles",
+    params={"source": "str", "max_iter": "int", "preserve": ("set", "str"), "fix_funcs": "obj"}, returns="str",
+    requires=[("budget-at-least-two", "max_iter >= 2")],
+    ensures=[("a-fixed-point-of-the-pass-is-returned-unchanged", "implies(one_pass(s0()) == s0(), result == s0())"),
+             ("a-two-cycle-of-the-pass-returns-the-text-it-started-from", "implies(one_pass(one_pass(s0())) == s0(), result == s0())")],
+    loops={0: {"inv": ["s0() in history",
+                       "implies(_i == 0, source == s0())", "implies(_i == 1, source == one_pass(s0()))",
+                       "implies(one_pass(s0()) == s0() or one_pass(one_pass(s0())) == s0(), _i <= 1)",
+                       "history == {s0()}"]}},
+    calls={"_schedule_rewrites": _sched, "_apply_rewrites": _apply, "_build_chain": ("havoc", "obj"), "frozenset": ("havoc", "obj")},
+    ghost=dict(PGH, one_pass=g_one_pass), records=RECORDS, props=("C09",),
+)
+
+UNITS += [fix_cycles, chain_cycles]
